@@ -2,7 +2,7 @@
    literal readers and printers used by the generated cases_*.v files of the correspondence. *)
 From Coq Require Import QArith Qcanon ZArith.
 From mathcomp Require Import all_ssreflect all_algebra.
-From GT Require Import QcField QcOrder Tensor DetExec LogDom Obj Factor Measure Pdf Cond Moments ExpLog Sample Approx.
+From GT Require Import QcField QcOrder Tensor DetExec LogDom Obj Factor Measure Pdf Cond Moments ExpLog Sample Approx FeatLog.
 Set Implicit Arguments.
 Unset Strict Implicit.
 Unset Printing Implicit Defensive.
